@@ -92,6 +92,7 @@ def run(ctx, w):
 
     rows_rules(ctx, w, S, direct_mut, direct_mark)
     mark_total(ctx, w, S)
+    export_semantics(ctx, w, S)
     report_rules(ctx, w, S)
 
 
@@ -230,6 +231,30 @@ def report_rules(ctx, w, S):
                 ctx.check(not vb.path_exists(rs.point, pt), "M4", api + ":order:" + cdef,
                           "%s runs its per-character closure after the changes were collected" % api, loc=w.stmt_loc(api, pt))
     ctx.floor("M4", 8, "report-and-clear obligations")
+
+
+def export_semantics(ctx, w, S):
+    """M4s: the export of the dirty set evaluated on every flag pattern of 4 rows: it lists exactly the indices of the set flags,
+    ascending (the index is taken BEFORE filtering)."""
+    from rules import prims
+    ctx.rule("M4s", "the dirty set's export evaluated on all 16 flag patterns of four rows returns exactly the indices of the set flags, in ascending order")
+    flds = [f["name"] for f in w.facts.struct_fields(S.dl_ty) or [] if f["ty"]["s"].startswith("alloc::vec::Vec<bool>")]
+    if len(flds) != 1 or len(S.dl_export) != 1:
+        ctx.missing_anchor("M4s", "flag vector / export routine of the dirty set")
+        return
+    ex = next(iter(S.dl_export))
+    other = {f["name"]: H.NONE_V for f in w.facts.struct_fields(S.dl_ty) if f["name"] != flds[0]}
+    for bits in range(16):
+        flags = [bool(bits >> i & 1) for i in range(4)]
+        obj = ("obj", S.dl_ty, dict(other, **{flds[0]: prims.Vec(flags)}))
+        try:
+            r = prims.VecInterp(w.facts).call_fn(ex, [obj])
+            got = list(r.items) if isinstance(r, prims.Vec) else (r[1] if isinstance(r, tuple) and r and r[0] == "iter" else r)
+        except prims.errs() as exn:
+            got = "error: %s" % (exn,)
+        want = [i for i, f in enumerate(flags) if f]
+        ctx.check(got == want, "M4s", "flags=%s" % "".join("1" if f else "0" for f in flags), "%s on flags %s returns %s, expected %s" % (ex, flags, got, want), loc=w.fn_loc(ex), sample={"flags": flags})
+    ctx.floor("M4s", 16, "flag patterns")
 
 
 def mark_total(ctx, w, S):
